@@ -73,7 +73,11 @@ pub fn main(args: &[String]) -> i32 {
         let lastm = bad.len() - 1;
         bad[lastm].pats.push(RealPat { pattern: ["a*?", "(", "\\bx", "(?i)a"][s % 4].to_string(), tt: 98, la: None });
         fam.push(bad);
-        let texts: Vec<String> = (0..3).map(|_| { let len = r.gen_range(0..=40); (0..len).map(|_| *['a', 'b', 'c', 'x', '0', '1', '_', ' ', '\n', 'é', 'q'].choose(&mut r).unwrap()).collect() }).collect();
+        // short ASCII-ish inputs and one long input rich in non-ASCII characters (shared matcher
+        // state is most exposed when several threads scan such text with the same compiled data)
+        const ALPHA: &[char] = &['a', 'b', 'c', 'x', '0', '1', '_', ' ', '\n', 'é', 'q', '€', '😀', 'α', 'β', 'ω', 'ж', 'я', '日', '本', 'Ω', 'Ж'];
+        let mut texts: Vec<String> = (0..2).map(|_| { let len = r.gen_range(0..=40); (0..len).map(|_| *ALPHA.choose(&mut r).unwrap()).collect() }).collect();
+        texts.push({ let len = r.gen_range(300..=1200); (0..len).map(|_| *ALPHA[8..].choose(&mut r).unwrap()).collect() });
         // specification-side tables
         let mut charset: BTreeSet<char> = BTreeSet::new();
         for t in &texts {
@@ -126,7 +130,7 @@ pub fn main(args: &[String]) -> i32 {
             let ops: Vec<Op> = (0..n_ops)
                 .map(|_| match r.gen_range(0..10) {
                     0..=5 => Op::Build { cfg: r.gen_range(0..4), cached: r.gen_bool(0.8), scan: r.gen_range(0..3) },
-                    6..=7 => Op::ScanShared { input: r.gen_range(0..3) },
+                    6..=7 => Op::ScanShared { input: if r.gen_bool(0.7) { 2 } else { r.gen_range(0..3) } },
                     _ => Op::Yield(r.gen_range(1..20)),
                 })
                 .collect();
